@@ -300,3 +300,41 @@ Theorem equal_fold_is_label_eqb :
   go_equalFold fuel a b = Some (label_eqb (fold_label a) (fold_label b)).
 Proof. exact gen_equal_fold. Qed.
 Print Assumptions equal_fold_is_label_eqb.
+
+(* ---- dnsname.CanonicalCompare / CompareSuffix / Sub and dnssec.nsecCovers AS THE CODE HAS THEM: srcgen translates
+   the four functions as a whole on every run, together with miekg's dns.NextLabel / dns.CountLabel (from the module
+   cache) and the repository's equalFold / canonicalLabel / escapedTail / compareDecodedFold.  For every name given as
+   a list of escape-free labels (plain_name: each label non-empty, without '.' and without a backslash), rendered as
+   the presentation string the code receives (present: labels joined and terminated by '.', the root is "."), and
+   any fuel above the combined string lengths, the generated functions compute the canonical order (RFC 4034 s6.1),
+   the number of shared trailing labels, zone membership and the NSEC interval test of the model.  (Escaped labels:
+   compare_decoded_fold_is_lcp covers the within-label decoder; the label-boundary scan on strings with escapes is
+   tied by the correspondence cases CaseCmp only.) *)
+Theorem canonical_compare_code_is_canon_cmp :
+  forall fuel a b, plain_name a -> plain_name b -> (length (present a) + length (present b) < fuel)%nat ->
+  go_CanonicalCompare fuel (present a) (present b) = Some (cmp_z (ncmp (canon a) (canon b))).
+Proof. exact (fun fuel a b Ha Hb Hf =>
+  eq_trans (gen_canonical_compare fuel a b Ha Hb Hf) (f_equal (fun c => Some (cmp_z c)) (go_canonical_compare_spec a b))). Qed.
+Print Assumptions canonical_compare_code_is_canon_cmp.
+Theorem compare_suffix_code_is_lcp :
+  forall fuel a b, plain_name a -> plain_name b -> (length (present a) + length (present b) < fuel)%nat ->
+  go_CompareSuffix fuel (present a) (present b) = Some (Z.of_nat (lcp (canon a) (canon b))).
+Proof. exact (fun fuel a b Ha Hb Hf =>
+  eq_trans (gen_compare_suffix fuel a b Ha Hb Hf) (f_equal (fun c => Some (Z.of_nat c)) (go_compare_suffix_spec a b))). Qed.
+Print Assumptions compare_suffix_code_is_lcp.
+Theorem sub_code_is_suffix_count :
+  forall fuel zone n, plain_name zone -> plain_name n -> (length (present zone) + length (present n) < fuel)%nat ->
+  go_Sub fuel (present zone) (present n) = Some (lcp (canon zone) (canon n) =? length (canon zone))%nat.
+Proof. exact (fun fuel zone n Hz Hn Hf =>
+  eq_trans (gen_sub fuel zone n Hz Hn Hf)
+           (f_equal Some (f_equal2 Nat.eqb (go_compare_suffix_spec zone n) (eq_sym (canon_length zone))))). Qed.
+Print Assumptions sub_code_is_suffix_count.
+Theorem nsec_covers_code_is_model :
+  forall fuel o nx x, plain_name o -> plain_name nx -> plain_name x ->
+  (length (present o) + length (present nx) + length (present x) < fuel)%nat ->
+  go_nsecCovers fuel (present o) (present nx) (present x) = Some (nsec_covers (canon o) (canon nx) (canon x)).
+Proof. exact (fun fuel o nx x Ho Hn Hx Hf =>
+  eq_trans (gen_nsec_covers fuel o nx x Ho Hn Hx Hf)
+    (f_equal Some (f_equal3 covers_of_cmps (go_canonical_compare_spec o nx) (go_canonical_compare_spec x o)
+                                           (go_canonical_compare_spec x nx)))). Qed.
+Print Assumptions nsec_covers_code_is_model.
